@@ -226,7 +226,7 @@ static void run_roundtrip(int which /*1 builtin,2 isal,3 both*/)
     static uint32_t es[120000];
     for (int ci = 0; ci < nc; ci++) {
         cfg_t c = cfgs[ci];
-        c.ct = (ci & 1) ? CHKSUM_NONE : CHKSUM_CRC32;
+        c.ct = (ci % 7 == 5) ? CHKSUM_MD5 : (ci & 1) ? CHKSUM_NONE : CHKSUM_CRC32;
         uint64_t lens[MAXSTR]; int kinds[MAXSTR];
         int nl = std_lengths(&c, lens, kinds, MAXSTR, 0);
         ctx_t x;
@@ -368,7 +368,7 @@ static void run_reconstruct(int which)
     static uint32_t es[120000];
     for (int ci = 0; ci < nc; ci++) {
         cfg_t c = cfgs[ci];
-        c.ct = (ci & 1) ? CHKSUM_CRC32 : CHKSUM_NONE;
+        c.ct = (ci % 7 == 3) ? CHKSUM_MD5 : (ci & 1) ? CHKSUM_CRC32 : CHKSUM_NONE;
         int legacy = (ci % 5 == 2);
         if (legacy) setenv("LIBERASURECODE_WRITE_LEGACY_CRC", "1", 1); else unsetenv("LIBERASURECODE_WRITE_LEGACY_CRC");
         uint64_t lens[MAXSTR]; int kinds[MAXSTR];
